@@ -533,10 +533,19 @@ func (e *escaper) computeOutCtx(c context, t *template.Template) context {
 		// Use c1 as the error context if neither assumption worked.
 	}
 	if !ok && c1.state != stateError {
-		return context{
+		c1 = context{
 			state: stateError,
 			err:   errorf(ErrOutputContext, t.Tree.Root, 0, "cannot compute output context for template %s", t.Name()),
 		}
+	}
+	// Replace the output context assumed by escapeTemplateBody with the
+	// computed one, so that later calls in the same start context see the
+	// real end context, and do not remember a template that failed to
+	// escape as escaped.
+	if c1.state == stateError {
+		delete(e.output, t.Name())
+	} else {
+		e.output[t.Name()] = c1
 	}
 	return c1
 }
